@@ -1,0 +1,24 @@
+//go:build verif
+
+package takewhile
+
+// Contracts for the takewhile plugin (C14, C01, C09), read by /verif's gvc.
+
+//@ func (g *gen) Add(name string, typs []types.Type) (r string, err error)
+//@ param typs: len=0,1,2,3
+//@ param name: classes=Ident
+
+//@ func (g *gen) Generate(typs []types.Type) (err error)
+//@ param typs: len=1
+
+//@ func (g *gen) genFuncFor(in types.Type) (err error)
+//@ emits: decls
+//@ serves: takewhile len=1 in=typs[0]
+//@ o-sig: (predicate func($in) bool, list []$in) (r []$in)
+//@ o-requires: predicate != nil
+//@ o-ensures: [prefix] len(r) <= len(list) && forall j int :: 0 <= j && j < len(r) ==> r[j] == list[j] && predicate(list[j])
+//@ o-ensures: [maximal] len(r) < len(list) ==> !predicate(list[len(r)])
+//@ o-ensures: [in-order] traceLen() <= len(list) && forall j int :: 0 <= j && j < traceLen() ==> called(j, predicate, list[j])
+//@ o-ensures: [no-call-after-stop] (len(r) < len(list) ==> traceLen() == len(r) + 1) && (len(r) == len(list) ==> traceLen() == len(r))
+//@ o-loop: 1: invariant len(out) == $i && traceLen() == $i
+//@ o-loop: 1: invariant forall j int :: 0 <= j && j < $i ==> out[j] == list[j] && predicate(list[j]) && called(j, predicate, list[j])
